@@ -282,7 +282,7 @@ struct Gs {
     address: String,
     /// None = the key is absent
     ports: Option<Vec<(String, u16)>>,
-    counters: BTreeMap<String, (u32, Option<u32>)>,
+    counters: BTreeMap<String, (u64, Option<u64>)>,
     lists: BTreeMap<String, Vec<String>>,
     labels: BTreeMap<String, String>,
     annotations: BTreeMap<String, String>,
@@ -451,7 +451,10 @@ impl<'a> Generator<'a> {
         for k in ["players", "rooms", "sessions"] {
             if self.rng.chance(1, 3) {
                 let cap = if self.rng.bool() { Some(100) } else { None };
-                g.counters.insert(k.into(), (self.rng.range(0, 60) as u32, cap));
+                // Agones counters are 64-bit: bytes served, ticks, scores are not bounded by 2^32
+                let count = if self.rng.chance(1, 10) { 5_000_000_000 + self.rng.below(1000) } else { self.rng.range(0, 60) as u64 };
+                let cap = if count > 100 { cap.map(|_| 1u64 << 40) } else { cap };
+                g.counters.insert(k.into(), (count, cap));
             }
         }
         g.lists.clear();
@@ -652,7 +655,7 @@ impl<'a> Generator<'a> {
                     }
                 }
                 _ => {
-                    let n = self.rng.range(0, 60) as u32;
+                    let n = self.rng.range(0, 60) as u64;
                     g.counters.insert("players".into(), (n, Some(100)));
                 }
             }
